@@ -308,9 +308,12 @@ func (x *fx) bitUF(name string, t types.Type, a, b string) *Val {
 
 func (x *fx) eqVals(a, b *Val) string {
 	if isUntyped(a.T) { // nil
-		return "(= " + x.zero(b.T) + " " + b.S + ")"
+		a, b = b, a
 	}
 	if isUntyped(b.T) {
+		if _, ok := a.T.Underlying().(*types.Slice); ok {
+			return "(= (s-base " + a.S + ") 0)" // a slice is nil iff it has no backing storage
+		}
 		return "(= " + a.S + " " + x.zero(a.T) + ")"
 	}
 	if len(a.Path) > 0 || len(b.Path) > 0 {
